@@ -41,6 +41,8 @@ def cases(tier, seed):
                 nZ = max(2, min(nZ, 50))
             how = ['nonumbers', 'single-inline', 'single-crossline'][(i + rep) % 3]
             src = conv.src_desc(rng, '2d', (nT, nZ), how2d=how, hdr={'seed': rng.randrange(1 << 20), 'nfields': rng.randint(1, 5), 'inside': True})
+            if True:
+                src['offset2d'] = [None, 'vary', 'const', 'repeat', 'desc'][(i // 3 + rep) % 5]
             out.append({'id': '2d:%s:%s:%d' % (rate, 'x'.join(map(str, bs)), rep), 'src': src, 'rate': rate, 'bs': list(bs),
                         'spell': rng.choice(['full', 'c-1', 'default']), 'detection': rng.choice(['heuristic', 'thorough', 'exhaustive']), 'cost': 2})
     return out
@@ -125,6 +127,7 @@ def run_case(case, ctx):
     b1 = bs[1]
     strata = ['how:' + case['src']['how2d'], 'rate:%s' % rate, 'ntraces:%s' % ('<b' if nT < b1 else '=b' if nT == b1 else '>b' if nT <= 2 * b1 else '>2b'),
               'bs1:%s' % ('4' if b1 == 4 else 'other'), 'res4:%d' % (nT % 4), 'detection:' + case['detection']]
+    strata.append('offsets:%s' % case['src'].get('offset2d'))
     return {'violations': bad, 'counters': {'reads_compared': n, 'files': 1}, 'strata': strata,
             'key': '%s|%s|%s|%s' % (case['src']['how2d'], rate, bs, strata[2]), 'nontrivial': n > 5}
 
